@@ -12,6 +12,22 @@ pub enum Case {
     Token { tokens: Vec<u8>, target: u8, reader: bool, radius: u8 },
     /// generated document: reflection channel x payload x line shape
     Gen { channel: u8, payload: u8, pad_before: u32, pad_after: u32, crlf: bool, reader: bool, radius: u8 },
+    /// long document: `lines_before` well-formed lines, one offending line, `tail` lines after it; the reader's
+    /// recent-bytes window has to be in step with the line numbering
+    Long { lines_before: u32, crlf: bool, tail: u8, chunk: u32, reader: bool, radius: u8 },
+}
+
+pub fn long_doc(lines_before: u32, crlf: bool, tail: u8) -> String {
+    let nl = if crlf { "\r\n" } else { "\n" };
+    let mut s = String::new();
+    for i in 0..lines_before {
+        s.push_str(&format!("key{:05}: {}{}", i, i, nl));
+    }
+    s.push_str(&format!("broken_entry: not_a_number{}", nl));
+    for i in 0..tail {
+        s.push_str(&format!("tail{}: {}{}", i, i, nl));
+    }
+    s
 }
 
 pub const RADII: [usize; 6] = [0, 1, 2, 7, 64, 1_000_000];
@@ -248,6 +264,17 @@ fn judge(input: &str, e: &serde_saphyr::Error, radius: usize, reader: bool, v: &
                 v.fail("line_wider_than_window", format!("{}: {} (radius {}) shows {} characters of line {}: {:?}", what, name, radius, core.chars().count(), n, t));
                 return;
             }
+            // the text shown under line number n is (a window of) line n of the input; judged for lines made of
+            // printable ASCII only (no sanitising, tab expansion or width arithmetic involved), LF / CRLF input
+            if !(input.contains('\r') && !input.contains("\r\n")) {
+                if let Some(ln) = if *n >= 1 { line_of(input, *n) } else { None } {
+                    let ln = ln.trim_end_matches('\r');
+                    if ln.chars().all(|c| (' '..='~').contains(&c)) && core.chars().all(|c| (' '..='~').contains(&c)) && !ln.contains(core.trim_start_matches("...").trim_end_matches("...").trim_end()) {
+                        v.fail("shown_line_is_not_that_line_of_the_input", format!("{}: {} shows {:?} as line {} but line {} of the input is {:?}", what, name, t, n, n, ln));
+                        return;
+                    }
+                }
+            }
         }
         if input.contains('\r') && !input.contains("\r\n") {
             continue; // CR-only input: which text is "the line" is unspecified
@@ -375,12 +402,73 @@ impl Prop for C17 {
                     }
                 }
             }
+            Case::Long { lines_before, crlf, tail, chunk, reader, radius } => {
+                let text = long_doc(*lines_before, *crlf, *tail);
+                let r = RADII[*radius as usize];
+                let mut o = serde_saphyr::Options::default();
+                o.crop_radius = r;
+                let res = guarded(|| {
+                    if *reader {
+                        serde_saphyr::from_reader_with_options::<_, std::collections::BTreeMap<String, u32>>(ScheduleReader::fixed(text.as_bytes(), *chunk as usize), o)
+                    } else {
+                        serde_saphyr::from_str_with_options::<std::collections::BTreeMap<String, u32>>(&text, o)
+                    }
+                });
+                v.execs = 1;
+                let what = format!("{} lines, then `broken_entry: not_a_number`, then {} lines ({}) via {} (reads of {} bytes, radius {})", lines_before, tail, if *crlf { "CRLF" } else { "LF" }, if *reader { "from_reader" } else { "from_str" }, chunk, r);
+                match res {
+                    Err(p) => v.fail("panic", format!("{}: {}", what, p)),
+                    Ok(Ok(_)) => v.fail("expected_error", format!("{}: accepted", what)),
+                    Ok(Err(e)) => {
+                        v.nontrivial = true;
+                        v.classes.push("long_document");
+                        let want_line = *lines_before as u64 + 1;
+                        match e.location() {
+                            Some(l) if l.line() == want_line => {}
+                            other => {
+                                v.fail("long_document_error_line", format!("{}: the offending line is {} but the error reports {:?}", what, want_line, other.map(|l| (l.line(), l.column()))));
+                                return v;
+                            }
+                        }
+                        judge(&text, &e, r, *reader, &mut v, &what);
+                        if v.fail.is_none() && *reader && r > 0 {
+                            // the offending line is among the last bytes read: the recent-bytes window covers it
+                            let sn = parse_snippet(&e.render());
+                            if sn.src.is_empty() {
+                                v.fail("reader_snippet_missing", format!("{}: the offending line is within the last {} bytes read but the report has no snippet: {:?}", what, 40 + 10 * *tail as usize, e.render()));
+                                return v;
+                            }
+                        }
+                        v.outcome = hash64(&(*reader, *crlf, v.classes.clone()));
+                    }
+                }
+            }
         }
         v
     }
     fn shrink(&self, c: &Case) -> Vec<Case> {
         let mut out = Vec::new();
         match c {
+            Case::Long { lines_before, crlf, tail, chunk, reader, radius } => {
+                let mk = |lb: u32, cr: bool, tl: u8, rd: bool, ra: u8| Case::Long { lines_before: lb, crlf: cr, tail: tl, chunk: *chunk, reader: rd, radius: ra };
+                for lb in [lines_before / 2, lines_before.saturating_sub(1)] {
+                    if lb != *lines_before {
+                        out.push(mk(lb, *crlf, *tail, *reader, *radius));
+                    }
+                }
+                if *crlf {
+                    out.push(mk(*lines_before, false, *tail, *reader, *radius));
+                }
+                if *tail > 0 {
+                    out.push(mk(*lines_before, *crlf, 0, *reader, *radius));
+                }
+                if *reader {
+                    out.push(mk(*lines_before, *crlf, *tail, false, *radius));
+                }
+                if *radius != 4 {
+                    out.push(mk(*lines_before, *crlf, *tail, *reader, 4));
+                }
+            }
             Case::Token { tokens, target, reader, radius } => {
                 for i in 0..tokens.len() {
                     let mut t = tokens.clone();
@@ -428,6 +516,9 @@ impl Prop for C17 {
                 if *reader { "from_reader" } else { "from_str" },
                 RADII[*radius as usize]
             ),
+            Case::Long { lines_before, crlf, tail, chunk, reader, radius } => {
+                format!("{}|long lines_before={} tail={}|{}|{}|chunk={}|radius={}", clause, lines_before, tail, if *crlf { "CRLF" } else { "LF" }, if *reader { "from_reader" } else { "from_str" }, chunk, RADII[*radius as usize])
+            }
             Case::Gen { channel, payload, pad_before, pad_after, crlf, reader, radius } => format!(
                 "{}|{}|{}|pad={}/{}|crlf={}|{}|radius={}",
                 clause,
@@ -489,6 +580,22 @@ pub fn run(ctx: &Ctx) -> i32 {
                                 cases.push(Case::Gen { channel, payload, pad_before: pb, pad_after: pa, crlf, reader, radius });
                             }
                         }
+                    }
+                }
+            }
+        }
+    }
+    // (c) long documents: every length around the reader's window (lines of 12-14 bytes) x LF|CRLF x tails x reads
+    let lens: Vec<u32> = ctx.tier.pick((0..=40).map(|i| i * 10).chain([600, 1000, 3000]).collect(), (0..=1200).chain([3000, 10_000, 50_000]).collect());
+    for &lb in &lens {
+        for crlf in [false, true] {
+            for tail in [0u8, 3] {
+                for (reader, chunk) in [(false, 0u32), (true, 1), (true, 1000), (true, 8192)] {
+                    if ctx.tier == Tier::Quick && reader && chunk == 1 && lb > 400 {
+                        continue;
+                    }
+                    for radius in ctx.tier.pick(vec![4u8], vec![1u8, 4]) {
+                        cases.push(Case::Long { lines_before: lb, crlf, tail, chunk, reader, radius });
                     }
                 }
             }
